@@ -370,6 +370,40 @@ def correspondence(ctx, broken_obligations=()):
         "fixed: property=C13 e20acc7 lost child under the forced look-up/look-up/insert/insert schedule (sched:rvA, sched:rvB cases)",
         "fixed: property=C13 3e4a84d order-dependent item name (re-cased parent references, shuffled orders)",
         "fixed: property=C13 8bd8521 build_tree skipped every file on POSIX paths (mode seq)"]
+    # a member set changing under a warm cache: file k starts without its members, every query is asked once, then a
+    # didChange brings k's members and every query is asked again; the second round must be the hierarchy of the full
+    # texts (the class headers never change, so the forest is the same throughout). Implementation + oracle only.
+    erng = random.Random(ctx.seed + 13)
+    seen_ws, ecases = set(), []
+    chain = [FileD("aKa", "aKa", None, members=[("Foo", "p", False), ("Fld", "v", False)]),
+             FileD("aKb", "aKb", "aKa", members=[("Foo", "p", True), ("Fld", "v", True)]),
+             FileD("aKc", "aKc", "aKb", members=[]),
+             FileD("aKd", "aKd", "aKc", members=[("Foo", "p", True), ("Fld", "v", True), ("Calc", "f", False)])]
+    for k in range(4):
+        ecases.append(fc.encode_case("edit:%d" % k, chain))
+        ecases.append(fc.encode_case("edit:%d" % (3 - k), list(reversed(chain))))
+    for c in plain:
+        w = wsid[c]
+        if w in seen_ws:
+            continue
+        seen_ws.add(w)
+        _, fds = fc.decode_case(c)
+        ks = [i for i, f in enumerate(fds) if f["members"]]
+        erng.shuffle(ks)
+        for k in ks[: (1 if ctx.quick else 3)]:
+            ecases.append(fc.with_mode(c, "edit:%d" % k))
+    if ctx.quick:
+        ecases = ecases[:8] + erng.sample(ecases[8:], min(len(ecases) - 8, 400))
+    eouts = core.run_lines(diff.Engines.harness(), "forest", ecases)
+    for c, o in zip(ecases, eouts):
+        r = oracle(c, o)
+        if r and not known(c, o, None):
+            path = core.write_replay(ctx.pid, ctx.seed, {"engine": "forest", "case": c, "case_readable": fc.describe(c),
+                                                         "observed": o, "expected": r})
+            v = core.Violation(r, path, True)
+            v.coverage = cov
+            raise v
+    cov["member_edit_histories"] = len(ecases)
     # the tree build overlapping a notification that holds a document's write lock: the builder waits, it does not skip the file
     hb_hooks = diff.Engines.harness(hooks=True)
     outs = core.run_lines(hb_hooks, "sched", ["tree_vs_change;x"] * (3 if ctx.quick else 20), shards=3)
